@@ -5,10 +5,10 @@
     price the shortfall / excess of a refused request). *)
 From V.Lib Require Import Base MachInt.
 From V.Gen Require Import C14Consts.
-From V.C14 Require Import Model Spec.
+From V.C14 Require Import Model SignModel Spec.
 Local Open Scope Z_scope.
 
-Inductive case := Case (r : req) (seen : option shape) (o : outcome built berr).
+Inductive case := Case (r : req) (seen : option shape) (sels : list (list sel)) (o : outcome built berr).
 
 Definition pool_eqb (a b : pool) : bool :=
   match a, b with
@@ -28,7 +28,7 @@ Fixpoint berr_eqb (a b : berr) : bool :=
   | EOrchardRecipient, EOrchardRecipient | EIronwoodSpend, EIronwoodSpend
   | EIronwoodNoteVersion, EIronwoodNoteVersion | EIronwoodRecipient, EIronwoodRecipient
   | ESaplingNA, ESaplingNA | EOrchardNA, EOrchardNA | EIronwoodNA, EIronwoodNA | EOther, EOther
-  | EDeferral, EDeferral => true
+  | EDeferral, EDeferral | ECoinbase, ECoinbase | ECoinbaseExpiry, ECoinbaseExpiry => true
   | _, _ => false
   end.
 
@@ -45,11 +45,19 @@ Definition built_eqb (a b : built) : bool :=
   && option_eqb Z.eqb (b_fee_paid a) (b_fee_paid b)
   && Bool.eqb (b_dec a) (b_dec b) && Bool.eqb (b_sig a) (b_sig b).
 
+(** what the model's signing step signs for the result the implementation returned *)
+Definition expected_sels (r : req) (o : outcome built berr) : list (list sel) :=
+  match o with
+  | Ok b => if is_pczt r then [] else model_sels (r_keys r) (b_ver b) (r_ops r)
+  | _ => []
+  end.
+
 (** model = implementation *)
 Definition run_case (c : case) : bool :=
   match c with
-  | Case r seen o =>
+  | Case r seen sels o =>
       outcome_eqb built_eqb berr_eqb (build r) o && option_eqb shape_eqb (model_seen r) seen
+      && list_eqb (list_eqb sel_eqb) (expected_sels r o) sels
   end.
 
 Definition is_propose (o : option op) (v : ver) : bool :=
@@ -58,16 +66,20 @@ Definition is_propose (o : option op) (v : ver) : bool :=
 (** the property on the implementation's outcome *)
 Definition prop_case (c : case) : bool :=
   match c with
-  | Case r seen o =>
+  | Case r seen sels o =>
     let ops := r_ops r in
     match o with
     | Ok b =>
-        contents_okb ops b && fee_okb (r_rule r) b && version_okb r b && header_okb r b
-        && b_dec b && b_sig b
-        && match seen with
-           | Some s => shape_eqb s (tx_shape b)      (* the rule was asked about the result's shape *)
-           | None => match r_rule r with RZip317 => true | RLin _ => false end
-           end
+        contents_okb ops b && version_okb r b && header_okb r b
+        && b_dec b && b_sig b && sels_okb r b sels
+        && (if r_coinbase r
+            (* a coinbase transaction creates value: no inputs, no fee, the rule is not consulted *)
+            then match seen, b_fee_paid b with None, None => true | _, _ => false end
+            else fee_okb (r_rule r) b
+                 && match seen with
+                    | Some s => shape_eqb s (tx_shape b)   (* the rule was asked about the result's shape *)
+                    | None => match r_rule r with RZip317 => true | RLin _ => false end
+                    end)
     | Err (EInsufficient a) =>
         (0 <? a) && (requested_balance ops + a =? rule_fee (r_rule r) (req_shape r))
         && match seen with Some s => shape_eqb s (req_shape r) | None => true end
@@ -77,6 +89,8 @@ Definition prop_case (c : case) : bool :=
     | Err (ETarget v _) => ver_eqb v (requested_version r) && version_refusable r ops v
     | Err (EAdd i (ETarget v _)) =>
         is_propose (nth_error ops (Z.to_nat i)) v && version_refusable r (firstn (Z.to_nat i) ops) v
+    | Err ECoinbaseExpiry => r_coinbase r && negb (requested_expiry r =? r_height r)
+    | Err ECoinbase => r_coinbase r && (nonempty (tin_vs ops) || (r_height r =? 0))
     | Err EDeferral =>       (* only the deferring builder, only off the V6 branch *)
         is_deferred r && negb (branch_has_ironwood (branch_at (r_net r) (r_height r)))
     | Err _ => true          (* any other refusal: no transaction was emitted *)
@@ -84,8 +98,13 @@ Definition prop_case (c : case) : bool :=
     end
   end.
 
-(** no known-finding class: the defect found here was repaired in /repo (see known_findings.d) *)
-Definition known_class (c : case) : N := 0%N.
+(** class 1: the OP_PUSHDATA1 length defect of the external zcash_script crate (see Model.v,
+    [malformed_script_sig]); the defects found in /repo itself were repaired there *)
+Definition known_class (c : case) : N :=
+  match c with
+  | Case r _ _ (Ok _) => if malformed_script_sig r then 1%N else 0%N
+  | _ => 0%N
+  end.
 
 Definition ver_idx (v : ver) : N :=
   match v with VSprout _ => 0 | V3 => 1 | V4 => 2 | V5 => 3 | V6 => 4 end%N.
@@ -100,6 +119,7 @@ Fixpoint err_tag (e : berr) : N :=
   | EOrchardBuild => 13 | EIronwoodBuild => 14 | EOrchardSpend => 15 | EOrchardRecipient => 16
   | EIronwoodSpend => 17 | EIronwoodNoteVersion => 18 | EIronwoodRecipient => 19
   | ESaplingNA => 20 | EOrchardNA => 21 | EIronwoodNA => 22 | EOther => 23 | EDeferral => 24
+  | ECoinbase => 25 | ECoinbaseExpiry => 26
   | EAdd _ e => 30 + err_tag e
   end%N.
 
@@ -108,12 +128,12 @@ Definition padded_bundle (o : option shb) (spends outs : list Z) : bool :=
 
 Definition tag_case (c : case) : N :=
   match c with
-  | Case r _ (Ok b) =>
-      (100 + 10 * route_idx (r_route r) + ver_idx (b_ver b)
+  | Case r _ _ (Ok b) =>
+      ((if r_coinbase r then 200 else 100) + 10 * route_idx (r_route r) + ver_idx (b_ver b)
        + (if padded_bundle (b_sap b) (ss_vals (r_ops r)) (so_vals (r_ops r))
              || padded_bundle (b_orc b) (os_vals (r_ops r)) (oo_vals (r_ops r) ++ oc_vals (r_ops r))
              || padded_bundle (b_iw b) (is_vals (r_ops r)) (io_vals (r_ops r))
           then 50 else 0))%N
-  | Case _ _ (Err e) => err_tag e
-  | Case r _ Panic => if negb (is_deferred r) && r_sap r && negb (in_bal (sapling_balance (r_ops r))) then 90%N else 91%N
+  | Case _ _ _ (Err e) => err_tag e
+  | Case r _ _ Panic => 91%N
   end.
